@@ -313,8 +313,18 @@ pub fn c04_ske(case: &Value) -> Result<Option<String>, String> {
     let same = r1 == r2 && e1 == e2;
     let mut k1 = [0u8; 16];
     let mut k2 = [0u8; 16];
-    sta_rs::derive_ske_key(&r1, &e1, &mut k1);
-    sta_rs::derive_ske_key(&r2, &e2, &mut k2);
+    // key derivation must work for every epoch byte string (the empty one included): a panic is a violation
+    let (r1c, e1c, r2c, e2c) = (r1.clone(), e1.clone(), r2.clone(), e2.clone());
+    match catch(move || {
+        let mut a = [0u8; 16];
+        let mut b = [0u8; 16];
+        sta_rs::derive_ske_key(&r1c, &e1c, &mut a);
+        sta_rs::derive_ske_key(&r2c, &e2c, &mut b);
+        (a, b)
+    }) {
+        Err(p) => return Ok(Some(format!("panicked: {}", p))),
+        Ok((a, b)) => { k1 = a; k2 = b; }
+    }
     if (k1 == k2) != same {
         return Ok(Some(format!("derive_ske_key: keys equal={} but (r, epoch) equal={}", k1 == k2, same)));
     }
